@@ -10,7 +10,8 @@ ASSUME = [
     "TLC decides every recorded vector with SocksPort.Holds18a / Holds18b; the configurations are enumerated by the Python driver",
     "existing configurations: unset with the built-in default in force, 1-3 explicit lines in TCP / host:port / unix forms with and "
     "without option words, 'SOCKSPort 0'; requested: none, a configured value, an unconfigured value; through "
-    "Tor._default_socks_endpoint / _create_socks_endpoint and through TorConfig.create_socks_endpoint",
+    "Tor._default_socks_endpoint / _create_socks_endpoint (also on a Tor object with an attached TorConfig through which a refused "
+    "SOCKSPort change was attempted) and through TorConfig.create_socks_endpoint",
     "a Tor that reports neither SOCKSPort nor a built-in default (old versions) is not explored; a Tor that reports the default as in "
     "force but refuses the follow-up lookup of its value is: the configuration must then stay untouched",
     "fallback: outcomes ok / connection error / other error / SOCKS request refused after the TCP connection was made / hang-up during "
@@ -52,6 +53,8 @@ def run(pid, tier, seed):
         reqs = [None] + usable[:2] + ["9999", "unix:/tmp/new.sock", "127.0.0.1:9998"]
         for rq in reqs:
             recs.append(sp.choose(ex, rq, "tor"))
+            if rq is None and ex["lines"]:
+                recs.append(sp.choose(ex, rq, "tor_cfg"))
             if rq is not None and ex["lines"]:
                 recs.append(sp.choose(ex, rq, "config"))
     for rq in (None, "9999", "9050"):
